@@ -553,12 +553,22 @@ Stylesheet::postConstruction(StylesheetConstructionContext&     constructionCont
         {
             (*i)->postConstruction(constructionContext);
 
-            m_namespacesHandler.copyNamespaceAliases((*i)->getNamespacesHandler());
-
             theKeyDeclarationsCount += (*i)->m_keyDeclarations.size();
             theWhitespaceElementsCount += (*i)->m_whitespaceElements.size();
 
             ++i;
+        }
+
+        // Take over the namespace aliases of the imported stylesheets.
+        // copyNamespaceAliases() keeps an alias that is already there, and
+        // the declaration with the highest import precedence is the one to
+        // use (XSLT 1.0, section 7.1.1), so this goes from the last import
+        // (the front of m_imports) to the first one.
+        for (StylesheetVectorType::const_iterator j = m_imports.begin();
+             j != m_imports.end();
+             ++j)
+        {
+            m_namespacesHandler.copyNamespaceAliases((*j)->getNamespacesHandler());
         }
     }
 
